@@ -213,6 +213,25 @@ def check(case):
             ok, err = _close(val, r, 2 * tolc)
         require(ok, "var:" + nm, "%s.%s differs from its definition (err %.3g, tol %.3g)" % (name, nm, err, tolc))
         # average() goes through the same variable
+    # --------------------------------------------------------------- whole-number states held in integer arrays (rho = 2, a Sod tube written np.where(x < .5, 8, 1))
+    def _whole(x, lo, hi):
+        return np.clip(np.rint(np.asarray(x, dtype=float)), lo, hi).astype(np.int64)
+    if name in ("euler1d", "nozzle", "euler2d"):
+        wi = [_whole(prim[0], 1, 9), _whole(prim[1], -3, 3), _whole(prim[2], 1, 9)]
+    elif name == "shallowwater":
+        wi = [_whole(prim[0], 1, 9), _whole(prim[1], -3, 3)]
+    else:
+        wi = [_whole(prim[0], -9, 9)]
+    fi = disc.fdata_fromprim([w.copy() for w in wi])
+    ff = disc.fdata_fromprim([w.astype(float) for w in wi])
+    for nm in names:
+        vi = np.asarray(fi.phydata(nm), dtype=float)
+        vf_ = np.asarray(ff.phydata(nm), dtype=float)
+        require(vi.shape == vf_.shape and bool(np.all(np.abs(vi - vf_) <= 1e-13 * (np.abs(vf_) + float(np.max(np.abs(vf_))) * 1e-3) + 1e-300)), "var-integer-data",
+                "%s.%s of a whole-number state held in integer arrays differs from the same state in float arrays (max difference %.3g)" % (name, nm, float(np.max(np.abs(vi - vf_))) if vi.shape == vf_.shape else float("nan")))
+    back_i = model.cons2prim([np.array(x, copy=True) for x in fi.data])
+    for i, (a, b) in enumerate(zip(back_i, wi)):
+        require(np.allclose(np.asarray(a, dtype=float), b.astype(float), rtol=1e-13, atol=1e-13), "roundtrip-integer-data", "cons2prim(prim2cons(W)) component %d differs from W for a whole-number state held in integer arrays" % i)
     return dict(nontrivial=nontrivial, labels=labels)
 
 
